@@ -153,9 +153,9 @@ func (e *Env) runMethods() error {
 		}
 	}()
 	cv := reflect.ValueOf(client)
-	// two passes over all methods on the same client: what a method learnt from its first answer must not replace the
+	// three passes over all methods on the same client: what a method learnt from its first answer must not replace the
 	// second request or its answer
-	for pass := uint64(0); pass < 2; pass++ {
+	for pass := uint64(0); pass < 3; pass++ {
 		n := uint64(0)
 		for _, d := range sch.API(false) {
 			if !d.Function || d.Generic || (spec.Only != "" && spec.Only != d.Name) {
@@ -185,6 +185,25 @@ func (e *Env) runMethods() error {
 				continue
 			}
 			alternate(req, spec.Invert)
+			if pass == 2 {
+				// third pass: every required scalar argument is the zero value of its type (0, "", no bytes): the request
+				// carries exactly that, whatever the client knows from its own configuration
+				for i, p := range d.Params {
+					if p.Type.Optional {
+						continue
+					}
+					switch p.Type.Kind {
+					case "int":
+						req.Fields[i] = int32(0)
+					case "long":
+						req.Fields[i] = int64(0)
+					case "double":
+						req.Fields[i] = float64(0)
+					case "string", "bytes":
+						req.Fields[i] = []byte{}
+					}
+				}
+			}
 			if pass == 1 {
 				// second pass: vector arguments with many items (129..328), as a caller asking about a whole chat does
 				for i, p := range d.Params {
